@@ -419,6 +419,20 @@ func (p *printer) node(it *item) (string, error) {
 			return "", err
 		}
 		return p.tag(it.l, "assign"+sp+bytesOf(n["name"])+sp+"="+sp+e, it.r), nil
+	case "badobj": // an object that does not parse
+		return p.object(it.l, "1 |", it.r), nil
+	case "badtag": // a known tag whose arguments do not parse
+		return p.tag(it.l, "assign", it.r), nil
+	case "unknowntag":
+		return p.tag(it.l, "nosuchtag 1", it.r), nil
+	case "strayend": // an end tag that closes nothing
+		return p.tag(it.l, "endfor", it.r), nil
+	case "strayclause":
+		return p.tag(it.l, "when 1", it.r), nil
+	case "openif": // a block that is never closed
+		return p.tag(it.l, "if true", it.r), nil
+	case "badif": // a block tag whose arguments do not parse
+		return p.tag(it.l, "if", it.r) + "q" + p.tag(false, "endif", false), nil
 	case "break", "continue":
 		return p.tag(it.l, jstr(n, "t"), it.r), nil
 	case "cycle":
